@@ -253,7 +253,7 @@ class World:
         self.node = n
         self.pool = []
         with n:
-            cfg = {"eop": {"missing_policy": self.policy, "folder": "/eop"}}
+            cfg = {"eop": {"missing_policy": "".join(list(self.policy)), "folder": "/eop"}}  # a string built at run time, as when the configuration is read from a file
             if self.dbname:
                 cfg["eop"]["dbname"] = self.dbname
             n.config.update(cfg)
@@ -919,7 +919,7 @@ class World:
         self.nontrivial_armed = True
         if op["what"] == "policy":
             self.policy = op["value"]
-            n.config["eop"]["missing_policy"] = op["value"]
+            n.config["eop"]["missing_policy"] = "".join(list(op["value"]))  # built at run time
             ctx.probe("policy_flipped")
         else:
             self.dbname = op["value"]
